@@ -219,9 +219,12 @@ def stream_init(tier, keepalive_oracle=False):
                 rm = _RM()
                 rm.sender = srv.keep_alive
                 srv._request_manager = rm
-                srv._on_dpi(list(toks)) if kind == "data" else srv._on_mpi(list(toks))
+                handed = srv._on_dpi(list(toks)) if kind == "data" else srv._on_mpi(list(toks))
             finally:
                 srv._executor.shutdown(wait=False)
+            if handed is not None and not isinstance(handed, str):
+                res.mismatch("init-shared-config", "the init handler produces the reply itself", "it returned a %s" % type(handed).__name__)
+                break                  # handled elsewhere (see above): nothing to judge here
             inits = [x for x in log if x[0] == "initialize"]
             merged = {k: x for k, x in dict(pairs).items() if k != "ARI.version"}
             merged.update(before)
